@@ -680,8 +680,17 @@ fn check_bytes(rep: &mut Report, b: &Bump, bytes: &[u8]) {
         (Ok(_), Err(_)) => rep.violate("C14", "C14/from_utf8/accepts-input-std-rejects", format!("{:x?}", bytes)),
         (Err(_), Ok(_)) => rep.violate("C14", "C14/from_utf8/rejects-input-std-accepts", format!("{:x?}", bytes)),
     }
-    // lossy
+    // lossy (with an older live block right next to where the result will be placed)
+    let canary = b.alloc_slice_fill_copy(16, 0xC5u8) as *const [u8];
     let l = BString::from_utf8_lossy_in(bytes, b);
+    if unsafe { (&*canary).iter().any(|x| *x != 0xC5) } {
+        rep.violate("C02", "C02/from_utf8_lossy_in/older-live-block-changed", format!("input {:x?}", bytes));
+        rep.violate("C14", "C14/from_utf8_lossy_in/neighbour-changed", format!("input {:x?}", bytes));
+    }
+    if l.len() > l.capacity() {
+        rep.violate("C14", "C14/from_utf8_lossy_in/length-above-capacity", format!("input {:x?}: len {} capacity {}", bytes, l.len(), l.capacity()));
+        rep.violate("C02", "C02/from_utf8_lossy_in/text-written-outside-the-buffer", format!("input {:x?}: len {} capacity {}", bytes, l.len(), l.capacity()));
+    }
     let sl = String::from_utf8_lossy(bytes);
     if l.as_bytes() != sl.as_bytes() {
         let sig = if std::str::from_utf8(l.as_bytes()).is_err() { "C14/from_utf8_lossy_in/produces-invalid-utf8" } else { "C14/from_utf8_lossy_in/repair-differs-from-std" };
@@ -767,6 +776,28 @@ fn decoders(args: &Args, rep: &mut Report) {
             }
         }
     }
+    // long ASCII runs with one or two interesting bytes at every position (block-wise fast paths)
+    if part == 0 {
+        let special: Vec<u8> = vec![0x7f, 0x80, 0x81, 0xbf, 0xc0, 0xc2, 0xdf, 0xe0, 0xed, 0xf0, 0xf4, 0xf5, 0xff];
+        for len in 1..=26usize {
+            for pos in 0..len {
+                for &x in &special {
+                    let mut v: Vec<u8> = (0..len).map(|i| b'a' + (i % 26) as u8).collect();
+                    v[pos] = x;
+                    check_bytes(rep, &b, &v);
+                    m += 1;
+                    if pos + 1 < len {
+                        for &y in &[0x80u8, 0xbf, 0xa0] {
+                            v[pos + 1] = y;
+                            check_bytes(rep, &b, &v);
+                            m += 1;
+                        }
+                    }
+                }
+            }
+            b.reset();
+        }
+    }
     rep.add("c14.decoder_structured_inputs", m);
     rep.evaluations += m;
     // random long inputs: valid text with random corruption
@@ -833,7 +864,7 @@ fn decoders(args: &Args, rep: &mut Report) {
     rep.distinct.insert(fnv(n, m));
     rep.distinct.insert(fnv(r, u + 1));
     let mut j = J::obj();
-    j.set("decoders", J::s(format!("all byte strings of length <= {} (part {}/{}), 23 lead bytes x 10^3 continuation triples x 4 truncations x 3 contexts, random corrupted text, 18 boundary UTF-16 units in all sequences of length <= 3", maxlen, part, parts)));
+    j.set("decoders", J::s(format!("all byte strings of length <= {} (part {}/{}), 23 lead bytes x 10^3 continuation triples x 4 truncations x 3 contexts, ASCII runs of length 1..26 with 13 special bytes (and a following continuation byte) at every position, random corrupted text, 18 boundary UTF-16 units in all sequences of length <= 3", maxlen, part, parts)));
     rep.sample(j);
 }
 
